@@ -98,6 +98,11 @@ func (f *Frame) call(st *State, x *ssa.Call, c *ssa.CallCommon, pos token.Pos) {
 		return
 	}
 	name := callee.String()
+	if callee.Synthetic == "package initializer" {
+		// initialisation of imported packages: outside the verified code
+		setResult(Val{T: resultType})
+		return
+	}
 	if ext := vc.eng.extFor(callee); ext != nil {
 		vc.usedExt[name] = true
 		setResult(ext.apply(f, st, c, args, resultType, pos))
@@ -373,6 +378,19 @@ func (f *Frame) havocCall(st *State, pre *State, mods *ModSet, targets []*Assign
 	for k, s := range mods.comps {
 		vc.registerComp(k, s)
 		names = append(names, k)
+	}
+	// package variables named in the assigns clause
+	for _, t := range targets {
+		if t.Glob == "" {
+			continue
+		}
+		for k := range vc.comps {
+			if strings.HasPrefix(k, t.Glob+"|") {
+				if _, ok := mods.comps[k]; !ok {
+					names = append(names, k)
+				}
+			}
+		}
 	}
 	sort.Strings(names)
 	for _, k := range names {
